@@ -194,6 +194,30 @@ class FakeOS:
     def getcwd(self):
         return '/cwd'
 
+    def stat(self, p):
+        if not self._fs.exists(p):
+            raise FileNotFoundError(2, 'No such file or directory: %r' % (p,))
+
+        class _St:
+            st_ctime = 2.0      # everything in the fake file system is "new" relative to an empty snapshot
+            st_mtime = 2.0
+        return _St()
+
+
+class FakeGlob:
+    """stands in for the `glob` module: shell-style matching of one pattern over the files AND directories of the
+    fake file system (as glob.glob does), `*` and `?` not crossing a path separator"""
+    def __init__(self, fs):
+        self._fs = fs
+
+    def glob(self, pattern):
+        import fnmatch
+        out = []
+        for p in sorted(set(self._fs.files) | set(self._fs.dirs)):
+            if p.count('/') == pattern.count('/') and fnmatch.fnmatchcase(p, pattern):
+                out.append(p)
+        return out
+
 
 class FakeShutil:
     def __init__(self, fs):
